@@ -43,4 +43,10 @@ CLAIMED["C06"] = (
     "counts its own executions: exactly 1 per recorded/scheduled tick, 0 for overridden, interrupted or masked ticks.",
     ASYNC_NOTE + "; trailing supervisor row after stop() read as not executed", "DESIGN.md §4 C06",
 )
+CLAIMED["C13"] = (
+    PBT + ": record rows vs the probe nodes' own host-side trace (faithfulness) and metamorphic relation recording on/off/partial/truncated => identical trace and final state",
+    "Generated systems x record-setting combinations x max_records on the threaded runtime, and init_record flags x supergraph mode x prune on the compiled runtime; "
+    "each recorded row is compared field by field with what the step really saw; executions with and without recording must be bit-identical.",
+    ASYNC_NOTE, "DESIGN.md §4 C13",
+)
 NOT_APPLICABLE = {}
